@@ -167,7 +167,6 @@ type Proxy struct {
 	Verified *Ident
 	Cluster  string
 	Cfg      *int      // Metadata.ProxyConfig: nil = not sent; else its private key provider: 0 none, 1 cryptomb, 2 qat
-	PkpHash  string    // filled from the real cache key
 	Refs     *[]string // nil = no MergedGateway
 }
 
@@ -351,7 +350,58 @@ func decodeOne(r *discovery.Resource) (Entry, error) {
 
 // ---------------------------------------------------------------- Gallina printers (positional constructors)
 
-var S = vlib.Str
+// pkpHashes[k] = the cache-key suffix the real parseResources computes for provider kind k
+// (xxhash of the proto text; the model treats the two non-empty ones as opaque "/"-free tokens).
+var pkpHashes [3]string
+
+var pkpNames = [3]string{"PNone", "PCryptomb", "PQat"}
+
+// binder shortens case terms: every distinct string literal (and every repeated sub-term handed to
+// memo) of one case is bound once with `let` and referred to by a variable afterwards.
+type binder struct {
+	defs []string
+	idx  map[string]string
+}
+
+var cur *binder
+
+func beginCase() { cur = &binder{idx: map[string]string{}} }
+
+// endCase wraps body into the accumulated lets.
+func endCase(body string) string {
+	b := cur
+	cur = nil
+	if b == nil || len(b.defs) == 0 {
+		return body
+	}
+	return "(" + strings.Join(b.defs, " ") + " " + body + ")"
+}
+
+func (b *binder) bind(key, term string) string {
+	if v, ok := b.idx[key]; ok {
+		return v
+	}
+	v := fmt.Sprintf("v%d", len(b.defs))
+	b.idx[key] = v
+	b.defs = append(b.defs, "let "+v+" := "+term+" in")
+	return v
+}
+
+// S prints a string (through the current case's binder if there is one).
+func S(s string) string {
+	if cur == nil {
+		return vlib.Str(s)
+	}
+	return cur.bind("s:"+s, vlib.Str(s))
+}
+
+// memo binds a composite sub-term that is likely to repeat within the case.
+func memo(term string) string {
+	if cur == nil || len(term) < 12 {
+		return term
+	}
+	return cur.bind("t:"+term, term)
+}
 
 func strList(xs []string) string { return vlib.ListOf(xs, S) }
 
@@ -363,7 +413,7 @@ func (w *World) term() string {
 		}),
 		vlib.ListOf(w.ConfigMaps, func(c [2]string) string { return vlib.Pair(S(c[0]), S(c[1])) }),
 		vlib.ListOf(w.Authz, func(a Authz) string { return "(" + S(a.Cluster) + ", " + S(a.Ns) + ", " + S(a.Sa) + ")" }),
-		vlib.NI(w.MeshPkp))
+		pkpNames[w.MeshPkp], S(pkpHashes[1]), S(pkpHashes[2]))
 }
 
 func identTerm(i *Ident) string {
@@ -380,9 +430,9 @@ func (p *Proxy) term() string {
 	}
 	cfg := "None"
 	if p.Cfg != nil {
-		cfg = "(Some " + vlib.NI(*p.Cfg) + ")"
+		cfg = "(Some " + pkpNames[*p.Cfg] + ")"
 	}
-	return vlib.App("Build_proxy", identTerm(p.Verified), S(p.Cluster), cfg, S(p.PkpHash), refs)
+	return memo(vlib.App("Build_proxy", identTerm(p.Verified), S(p.Cluster), cfg, refs))
 }
 
 func ckeyTerm(k CKey) string { return vlib.App("Build_ckey", vlib.B(k.CM), S(k.Name), S(k.Ns)) }
@@ -407,11 +457,11 @@ func (o Op) term() string {
 	return vlib.App("OClear", vlib.ListOf(o.Keys, ckeyTerm))
 }
 
-func srcTerm(s [3]string) string { return "(" + S(s[0]) + ", " + S(s[1]) + ", " + S(s[2]) + ")" }
+func srcTerm(s [3]string) string { return memo("(" + S(s[0]) + ", " + S(s[1]) + ", " + S(s[2]) + ")") }
 
 func entryTerm(e Entry) string {
 	if e.TLS {
-		return vlib.Pair(S(e.Name), vlib.App("CTls", srcTerm(e.Src), vlib.NI(e.Fmt)))
+		return vlib.Pair(S(e.Name), vlib.App("CTls", srcTerm(e.Src), pkpNames[e.Fmt]))
 	}
 	return vlib.Pair(S(e.Name), vlib.App("CCa", srcTerm(e.Src)))
 }
